@@ -159,6 +159,7 @@ def _(self: Ref['mqtt.client.base.MQTTBaseProtocol'], request: Ref['mqtt.pdu.CON
     modifies(self._cleanStart, self._version, self.transport.tr_out, self.state, request.alarm, request.deferred,
              request.encoded, self.connReq, self.g_sent_connect, allocates())
     ensures(is_bool(result.d_fired) and is_list_bytes(self.transport.tr_out))
+    ensures(no_other_timer(as_ref(request.alarm)))
     # refused up front: failed Deferred, nothing written, no timer, state unchanged
     ensures(implies(connect_rejected(request), result.d_fired and not result.d_ok and is_exc(result.d_val)
                     and not (result.d_val == exc('MQTTStateError'))
